@@ -496,6 +496,10 @@ nlopt_result luksan_plis(int n, nlopt_func f, void *f_data,
      free(work);
      free(ix);
 
+     /* a stop raised inside the line search ends it with some other
+	termination code before pyfut1 sees the flag */
+     if (nlopt_stop_forced(stop)) return NLOPT_FORCED_STOP;
+
      switch (iterm) {
 	 case 1: return NLOPT_XTOL_REACHED;
 	 case 2: return NLOPT_FTOL_REACHED;
